@@ -20,7 +20,14 @@
 // Totality families: every sequence of <= L tokens of a 24 token IDL
 // alphabet, nesting ladders, and every single-character deletion / prefix of
 // a corpus of generated IDL texts: ParseIDL returns a package or an error,
-// never a panic, within the watchdog.
+// never a panic, within the watchdog. Identifier-shape dimension: a pool of
+// names covering every lexical shape the package-name token
+// [_A-Za-z][0-9a-zA-Z-._]* admits at its boundaries (trailing . - _ digit,
+// doubled separators, a lone _, keywords, and shapes just outside the token)
+// is used as the package name before a set of continuations, as interface /
+// struct / enum / member / action / parameter / type-reference name in fixed
+// shapes, and as extra tokens of a reduced token alphabet; on these texts
+// ParsePackage is called directly as well.
 package main
 
 import (
@@ -794,6 +801,7 @@ type kase struct {
 	text   string // totality families
 	idx    int
 	total  bool
+	pp     bool // totality: call ParsePackage directly as well
 }
 
 func genTypes(g sigen.Gen, d int, emit func(pkg) bool) {
@@ -1071,6 +1079,132 @@ func genDamaged(emit func(string) bool) {
 	}
 }
 
+// identShapes is the identifier-shape pool. The package name token is
+// [_A-Za-z][0-9a-zA-Z-._]*, identifiers are [_A-Za-z][0-9a-zA-Z_]*: the pool
+// holds one name per lexical shape at the boundaries of these tokens - a name
+// ending with each of the separators . - _ and with a digit, separators alone
+// and doubled and mixed inside and at the end, the one-character names, names
+// that are keywords or basic types, template style names - and the shapes
+// just outside the tokens (leading digit or separator, separator only).
+var identShapes = []string{
+	"foo", "x1", "foo_", "foo.", "foo-", "a.b", "a-b", "a_b", "a.b.", "a-b-", "a.b-", "a-b.", "a.b_", "a.1", "a-1",
+	"a..b", "a--b", "a.-b", "a-.b", "a..", "a--", "a.-", "a-.", "a.-.-", "a_.", "a_-", "a1.", "a1-",
+	"_", "_.", "_-", "__", "_1", "a", "A", "Z9", "bla_bla.te-st",
+	"package", "package.", "end", "end.", "interface", "struct-", "fn", "int32", "int32.", "str", "Vec", "Vec<int32>", "List<double>", "P<a.>",
+	".foo", "-foo", "1x", "9", ".", "-", "..", "foo .", "foo. bar", "\u00e9t\u00e9", "foo\u00e9.",
+}
+
+// genPackageNames: `package <name>` for every name of the pool, followed by
+// every separator and every continuation.
+func genPackageNames(emit func(string) bool) {
+	seps := []string{"", " ", "\n", "\t\n\n", " // comment\n", "//comment", "\r\n"}
+	conts := []string{
+		"",
+		"interface I\nend\n",
+		"interface I\n\tfn f() //uid:100\nend\n",
+		"interface I\n\tfn f(a: int32, b: S) -> Vec<S> //uid:100\n\tsig s(a: str) //uid:101\n\tprop p(a: any) //uid:102\nend\nstruct S\n\tx: float32\nend\n",
+		"struct S\n\ta: int32\nend\n",
+		"struct S\nend\n",
+		"enum E\n\ta = 1\nend\n",
+		"end",
+		"garbage",
+		") -> = ,",
+		"package p\n",
+		"package p.\ninterface I\nend\n",
+		"interface I\n",
+		"// only a comment",
+	}
+	for _, kw := range []string{"package ", "package", "package\t", "package\n", " package  "} {
+		for _, n := range identShapes {
+			for _, sep := range seps {
+				for _, c := range conts {
+					if !emit(kw + n + sep + c) {
+						return
+					}
+				}
+			}
+		}
+	}
+}
+
+// genIdentShapes: every name of the pool in every identifier role of a few
+// fixed declarations, without a package clause, after `package p` and after
+// `package <the same name>`; then every ordered pair (package name, name).
+func genIdentShapes(emit func(string) bool) {
+	shapes := []func(n string) string{
+		func(n string) string { return "interface " + n + "\nend\n" },
+		func(n string) string { return "interface " + n + "\n\tfn f() //uid:100\nend\n" },
+		func(n string) string { return "struct " + n + "\n\ta: int32\nend\n" },
+		func(n string) string { return "struct " + n + "\nend\n" },
+		func(n string) string { return "struct S\n\t" + n + ": int32\nend\n" },
+		func(n string) string { return "struct S\n\ta: int32\n\t" + n + ": str\nend\n" },
+		func(n string) string { return "struct S\n\ta: " + n + "\nend\n" },
+		func(n string) string {
+			return "struct " + n + "\n\ta: int32\nend\ninterface I\n\tfn f(p: " + n + ") -> " + n + " //uid:100\nend\n"
+		},
+		func(n string) string {
+			return "interface I\n\tfn f(p: Vec<" + n + ">, q: Map<str," + n + ">) -> Tuple<" + n + "," + n + "> //uid:100\nend\n"
+		},
+		func(n string) string { return "interface I\n\tfn " + n + "() //uid:100\nend\n" },
+		func(n string) string { return "interface I\n\tfn f(" + n + ": int32) //uid:100\nend\n" },
+		func(n string) string {
+			return "interface I\n\tsig " + n + "(" + n + ": str) //uid:101\n\tprop " + n + "(" + n + ": str) //uid:102\nend\n"
+		},
+		func(n string) string { return "enum " + n + "\n\ta = 1\nend\n" },
+		func(n string) string { return "enum E\n\t" + n + " = 1\nend\n" },
+		func(n string) string { return "interface " + n + "\nend\nstruct " + n + "\nend\nenum " + n + "\nend\n" },
+	}
+	for _, n := range identShapes {
+		for _, sh := range shapes {
+			body := sh(n)
+			for _, pre := range []string{"", "package p\n", "package " + n + "\n"} {
+				if !emit(pre + body) {
+					return
+				}
+			}
+		}
+	}
+	for _, pn := range identShapes {
+		for _, n := range identShapes {
+			if pn == n {
+				continue
+			}
+			for _, k := range []int{0, 2, 4, 7, 11} {
+				if !emit("package " + pn + "\n" + shapes[k](n)) {
+					return
+				}
+			}
+		}
+	}
+}
+
+// nameTokens is a reduced token alphabet in which the identifier positions
+// are filled by names of distinct lexical shapes.
+var nameTokens = []string{"package", "interface", "struct", "end", "fn", "(", ")", ":", "->", "//uid:1", "\n", "int32",
+	"foo.", "foo-", "a..b", "a-b", "_", "x1", "foo_"}
+
+func genNameTokens(n int, emit func(string) bool) {
+	idx := make([]int, n)
+	var rec func(i int) bool
+	rec = func(i int) bool {
+		if i == n {
+			parts := make([]string, n)
+			for k, x := range idx {
+				parts[k] = nameTokens[x]
+			}
+			return emit(strings.Join(parts, " "))
+		}
+		for k := range nameTokens {
+			idx[i] = k
+			if !rec(i + 1) {
+				return false
+			}
+		}
+		return true
+	}
+	rec(0)
+}
+
 // ------------------------------------------------------------ driver
 
 type witness struct {
@@ -1227,8 +1361,35 @@ func (st *wstate) doTotal(c kase) {
 		fp := "ParseIDL(arbitrary)/result-and-error"
 		st.record(&witness{fp: fp, what: fmt.Sprintf("ParseIDL returns both meta-objects and an error on %q", clip(c.text)), family: c.family, text: c.text, total: true, min: c.text})
 	}
+	if c.pp {
+		st.parsePackage(c, o.Panic != "")
+	}
 	if c.idx%1009 == 1 {
 		st.sample(c.family, fmt.Sprintf("%q => %s", c.text, out))
+	}
+}
+
+// parsePackage applies the totality oracle to idl.ParsePackage itself: a
+// package or an error, never a panic. ParseIDL goes through ParsePackage, so
+// a panic is only recorded here when ParseIDL did not panic on the same text.
+func (st *wstate) parsePackage(c kase, idlPanicked bool) {
+	var decl *idl.PackageDeclaration
+	var err error
+	o := runner.Guard(func() { decl, err = idl.ParsePackage([]byte(c.text)) })
+	switch {
+	case o.Slow:
+		st.slow++
+	case o.Panic != "":
+		if !idlPanicked {
+			fp := report.FPEscape("ParsePackage(arbitrary)/panic/" + runner.MsgClass(o.Panic) + "@" + o.Site)
+			st.record(&witness{fp: fp, what: fmt.Sprintf("ParsePackage panics on %q: %s", clip(c.text), clip(o.Panic)), family: c.family, text: c.text, total: true, min: c.text})
+		}
+	case decl == nil && err == nil:
+		fp := "ParsePackage(arbitrary)/neither-package-nor-error"
+		st.record(&witness{fp: fp, what: fmt.Sprintf("ParsePackage returns (nil, nil) on %q", clip(c.text)), family: c.family, text: c.text, total: true, min: c.text})
+	case decl != nil && err != nil:
+		fp := "ParsePackage(arbitrary)/result-and-error"
+		st.record(&witness{fp: fp, what: fmt.Sprintf("ParsePackage returns both a package and an error on %q", clip(c.text)), family: c.family, text: c.text, total: true, min: c.text})
 	}
 }
 
@@ -1276,14 +1437,15 @@ func main() {
 		}, func(w int, c kase) { states[w].doRound(c) })
 		res = append(res, famRes{name, universe, n, ok, time.Since(t0).Seconds()})
 	}
-	runTotal := func(name, universe string, gen func(emit func(string) bool)) {
+	runTotalPP := func(name, universe string, pp bool, gen func(emit func(string) bool)) {
 		t0 := time.Now()
 		n := 0
 		ok := runner.Each(workers, deadline, func(emit func(kase) bool) {
-			gen(func(s string) bool { n++; return emit(kase{family: name, text: s, idx: n, total: true}) })
+			gen(func(s string) bool { n++; return emit(kase{family: name, text: s, idx: n, total: true, pp: pp}) })
 		}, func(w int, c kase) { states[w].doTotal(c) })
 		res = append(res, famRes{name, universe, n, ok, time.Since(t0).Seconds()})
 	}
+	runTotal := func(name, universe string, gen func(emit func(string) bool)) { runTotalPP(name, universe, false, gen) }
 
 	runRound("names", fmt.Sprintf("fixed shapes x interface names %q, action names %q (as method, signal, property; alone and between two other methods), parameter name pairs %q, struct names %q x member names %q in 6 type shapes, struct-in-struct for every ordered pair of struct names",
 		ifaceNames, actionNames, paramNames, structNames, fieldNames), genNames)
@@ -1304,6 +1466,22 @@ func main() {
 	runRound("pairs", "fn m(T1,T2)->v|T1 and sig s(T2,T1) for every (T1,T2) over Sig(1,2) (width 1..2) with atoms "+pairAtoms, func(emit func(pkg) bool) { genPairs(pairAtoms, emit) })
 	runTotal("ladders", "nesting ladders of depth 1..24 (Vec<, Map<str,, Tuple<, Tuple<int32,; closed and unterminated) in a struct member and in a method, repeated unterminated blocks", genLadders)
 	runTotal("damaged", "every prefix and every single-character deletion of 3 generated IDL texts", genDamaged)
+	runTotalPP("pkgnames", fmt.Sprintf("identifier shapes as the package name: {package followed by a blank, nothing, a tab, a newline; with leading blanks} x every name of the identifier-shape pool %q "+
+		"(every lexical shape of the package-name token [_A-Za-z][0-9a-zA-Z-._]* at its boundaries: trailing . - _ digit, doubled / mixed separators inside and at the end, one-character names, keywords and basic type names, template style; and shapes just outside the token) "+
+		"x 7 separators (nothing, blank, newline, blank lines, comment with and without newline, CRLF) x 14 continuations (nothing, empty interface, interface with a method, interface + struct, struct, empty struct, enum, a stray end, garbage, a second package clause, an unterminated interface, a comment); ParseIDL and ParsePackage", identShapes),
+		true, genPackageNames)
+	runTotalPP("identshapes", "every name of the identifier-shape pool in every identifier role of 15 fixed declarations (interface, struct and enum name, member name, member type reference, struct referenced from a method, inside Vec<> Map<> Tuple<>, method / signal / property name, parameter name, enum constant, one name for three declarations) "+
+		"without package clause, after `package p` and after `package <the same name>`; then every ordered pair (package name, other name) of the pool in 5 of the shapes; ParseIDL and ParsePackage",
+		true, genIdentShapes)
+	maxNameTok := 3
+	if tier == "thorough" {
+		maxNameTok = 4
+	}
+	for n := 1; n <= maxNameTok; n++ {
+		n := n
+		runTotalPP(fmt.Sprintf("nametokens:len=%d", n), fmt.Sprintf("every sequence of %d tokens of %q (12 structural tokens + 7 names of distinct lexical shapes) joined by a blank; ParseIDL and ParsePackage", n, nameTokens),
+			true, func(emit func(string) bool) { genNameTokens(n, emit) })
+	}
 	maxTok := 4
 	if tier == "thorough" {
 		maxTok = 5
@@ -1409,7 +1587,9 @@ func main() {
 		"distinct_nontrivial": len(total.distinct),
 		"rule": "every element of each family's stated universe is generated and judged. distinct_nontrivial = number of distinct (package abstraction, outcome class) pairs of the round-trip families " +
 			"(abstraction = interfaces / action kinds / id class / type shapes with atoms reduced to int/flt/bool/str/any/obj/unk and every name reduced to its lexical class) " +
-			"+ number of distinct blank-normalised token texts that ParseIDL ACCEPTED in the totality families (rejected texts are counted as trivial)",
+			"+ number of distinct blank-normalised token texts that ParseIDL ACCEPTED in the totality families (rejected texts are counted as trivial). " +
+			"Totality families (ladders, damaged, pkgnames, identshapes, nametokens, tokens) are judged by: ParseIDL returns meta-objects or an error, never a panic and never both; " +
+			"in pkgnames / identshapes / nametokens (identifier-shape dimension: names of every lexical shape of the package-name and identifier tokens, as package name and in every identifier role) ParsePackage is called directly too and must return a package or an error, never a panic, never neither",
 		"samples":                               samples,
 		"exhaustive":                            exhaustive,
 		"families":                              famCov,
@@ -1438,7 +1618,7 @@ func main() {
 func reproduces(w *witness) bool {
 	if w.total {
 		st := newState()
-		st.doTotal(kase{family: w.family, text: w.text, total: true})
+		st.doTotal(kase{family: w.family, text: w.text, total: true, pp: true})
 		_, ok := st.wit[w.fp]
 		return ok
 	}
@@ -1476,7 +1656,7 @@ func replay(path string) int {
 	st := newState()
 	switch {
 	case f.Replay.Text != nil:
-		st.doTotal(kase{family: "replay", text: *f.Replay.Text, total: true})
+		st.doTotal(kase{family: "replay", text: *f.Replay.Text, total: true, pp: true})
 	case f.Replay.Package != nil:
 		st.doRound(kase{family: "replay", p: *f.Replay.Package})
 	default:
